@@ -90,6 +90,16 @@ class HCfg:
                 self.lines.append("route in %s qi%d pi%d" % (ip, hid, hid))
         if rng.random() < 0.3:
             self.lines.append("mtu * %d" % rng.choice(MTU))
+        # path-MTU entries for pairs that involve a NAT's EXTERNAL address. No socket lives there: the
+        # library must never consult them (segmentation and timing are those of the real address pair,
+        # with or without NAT), so on a correct tree these lines change nothing
+        exts = sorted(set(e for e in self.ext.values() if e))
+        if exts and rng.random() < 0.5:
+            for e in exts:
+                for ip in self.all_ips():
+                    if ":" in ip: continue
+                    self.lines.append("mtu %s>%s %d" % (ip, e, rng.choice([100, 576, 900, 3000])))
+                    self.lines.append("mtu %s>%s %d" % (e, ip, rng.choice([100, 576, 900, 3000])))
 
     def all_ips(self):
         return [ip for _, ips in self.nodes for ip in ips]
